@@ -123,11 +123,17 @@ def run_prop(chk, replay, prop):
     chk.extra["fragile_states"] = {"by_rule_in_model": counts, "replayed": len(fragile)}
     chk.exhaustive = len(chosen) == len(scenarios)
     styles = [{}, {"offset_text": "plus"}, {"offset_text": "zero"}, {"fod_blanks": True}, {"ishift": True}]
+
+    def one_unit_length_error(sc):
+        a = sc.get("applied") or []
+        return len(a) == 1 and a[0].get("k") in ("Truncate", "Extend") and a[0].get("u") == 1
     for i, sc in enumerate(chosen):
         ndims = 2 if i % 4 == 1 else 3
         style = styles[i % len(styles)] if prop == "C20" else ({"payload": "wild"} if prop == "C03" and i % 2 else {})
         if prop == "C04" and i % 5 == 4 and not sc["opts"]["coords"]:
             style = {"ishift": True}
+        if prop in ("C04", "C20") and one_unit_length_error(sc) and i % 3 != 0:
+            style = {"ragged": True}          # a length error of less than one value (taste_common.concretise)
         cfgseed = chk.rng.randrange(1 << 30)
         v, obs = judge(chk, prop, sc, cfgseed, ndims, style)
         sigs = T.sig_of(sc, ndims, style)
